@@ -193,3 +193,170 @@ def scalars(lo=1e-3, hi=1e3):
         st.tuples(st.sampled_from([-1.0, 1.0]), log_uniform(lo, hi)).map(lambda t: t[0] * t[1]),
         st.tuples(st.sampled_from([-1.0, 1.0]), st.integers(-8, 8)).map(lambda t: t[0] * 2.0 ** t[1]),
     )
+
+
+# ---------------------------------------------------------------------------
+# size ladders and the source-mined dictionary (added after round 5 of the seeding, DESIGN 8.5)
+#
+# A code path that only exists in a *window* of sizes (a blocked / streamed / cached variant above some length or
+# above some product of two dimensions) is invisible to a generator whose sizes stop at a few thousand samples and to
+# a fixed list of giant sizes alike.  Two devices close that class:
+#   * ladder(): sizes spread log-uniformly over [lo, hi], one per log-bin, placed inside the bin by a hash of
+#     (VERIF_SEED, tag) - every run covers every octave, different seeds land on different lengths (odd, even,
+#     prime-ish: nothing is round on purpose);
+#   * mined_ints(): the integer literals of the source of the tree under test (the fuzzing idea of an automatic
+#     dictionary): a window boundary written into the code as `n > 8192` or `BLOCK = 4096` is read from the code and
+#     the sizes just below / above it and its first multiples are added to the ladder.  Only the *generator* looks at
+#     the code under test; no oracle does.
+
+import hashlib as _hashlib
+import os as _os
+
+
+def run_seed():
+    try:
+        return int(_os.environ.get("VERIF_SEED", "1"))
+    except ValueError:
+        return 1
+
+
+def _h(*parts):
+    s = ":".join(str(p) for p in parts)
+    return int(_hashlib.blake2b(s.encode(), digest_size=8).hexdigest(), 16)
+
+
+def ladder(lo, hi, count, tag="", seed=None):
+    """`count` integers in [lo, hi]: one per logarithmic bin, placed inside its bin by a hash of (seed, tag, bin)."""
+    seed = run_seed() if seed is None else seed
+    lo, hi = int(lo), int(hi)
+    if hi <= lo or count <= 1:
+        return [lo]
+    out = []
+    llo, lhi = math.log(lo), math.log(hi + 1)
+    for i in range(count):
+        a = llo + (lhi - llo) * i / count
+        b = llo + (lhi - llo) * (i + 1) / count
+        u = (_h(seed, tag, i) % 10 ** 6) / 1e6
+        n = int(math.exp(a + (b - a) * u))
+        out.append(min(hi, max(lo, n)))
+    return sorted(set(out))
+
+
+_MINED = None
+
+
+def _mine():
+    """Integer and float literals of eqsig's source (tree under test), with the module constants they are bound to."""
+    global _MINED
+    if _MINED is not None:
+        return _MINED
+    import ast
+    import glob
+    root = _os.path.realpath(_os.environ.get("VERIF_EQSIG_PATH", "/repo"))
+    ints, floats = set(), set()
+    for f in sorted(glob.glob(_os.path.join(root, "eqsig", "**", "*.py"), recursive=True)):
+        try:
+            tree = ast.parse(open(f).read())
+        except Exception:  # noqa
+            continue
+        for node in ast.walk(tree):
+            if isinstance(node, ast.Constant) and not isinstance(node.value, bool):
+                v = node.value
+                if isinstance(v, int):
+                    ints.add(v)
+                elif isinstance(v, float) and math.isfinite(v):
+                    floats.add(v)
+                    if v == int(v) and abs(v) < 2 ** 40:
+                        ints.add(int(v))
+            # 2 ** 20, 1 << 20, 4 * 1024 ... : constant-fold small integer expressions
+            if isinstance(node, ast.BinOp):
+                try:
+                    v = _fold(node)
+                except Exception:  # noqa
+                    v = None
+                if isinstance(v, int) and 0 < v < 2 ** 40:
+                    ints.add(v)
+                elif isinstance(v, float) and math.isfinite(v):
+                    floats.add(v)
+                    if v == int(v) and 0 < v < 2 ** 40:
+                        ints.add(int(v))
+    _MINED = (sorted(ints), sorted(floats))
+    return _MINED
+
+
+def _fold(node):
+    import ast
+    if isinstance(node, ast.Constant) and isinstance(node.value, (int, float)) and not isinstance(node.value, bool):
+        return node.value
+    if isinstance(node, ast.BinOp):
+        a, b = _fold(node.left), _fold(node.right)
+        if isinstance(node.op, ast.Pow):
+            if abs(a) > 64 or abs(b) > 64:
+                raise ValueError
+            return a ** b
+        if isinstance(node.op, ast.Mult):
+            return a * b
+        if isinstance(node.op, ast.LShift):
+            if b > 62:
+                raise ValueError
+            return a << b
+        if isinstance(node.op, ast.Add):
+            return a + b
+        if isinstance(node.op, ast.Sub):
+            return a - b
+        if isinstance(node.op, ast.FloorDiv):
+            return a // b
+    raise ValueError
+
+
+def mined_ints(lo, hi):
+    """Integer literals c of the source under test with lo <= c <= hi (sorted)."""
+    return [c for c in _mine()[0] if lo <= c <= hi]
+
+
+def mined_floats(lo, hi):
+    return [c for c in _mine()[1] if lo <= c <= hi]
+
+
+def mined_sizes(lo, hi, limit=12, tag=""):
+    """Sizes aimed at window boundaries written into the code: for each mined integer c >= 16 the sizes c-1, c, c+1,
+    2c+1 and 3c+2 (a blocked algorithm shows its seams at the second and third block) and, for products, isqrt-free
+    divisors are left to the caller.  At most `limit` sizes (hash-selected by seed when there are more)."""
+    cand = set()
+    for c in _mine()[0]:
+        if c < 16:
+            continue
+        for n in (c - 1, c, c + 1, 2 * c + 1, 3 * c + 2):
+            if lo <= n <= hi:
+                cand.add(n)
+    cand = sorted(cand)
+    if len(cand) > limit:
+        cand = sorted(sorted(cand, key=lambda n: _h(run_seed(), tag, n))[:limit])
+    return cand
+
+
+def size_ladder(lo, hi, count, tag="", mined_limit=8):
+    """ladder() plus mined_sizes(): the sizes of a mid-range / window enumeration (sorted, distinct)."""
+    return sorted(set(ladder(lo, hi, count, tag)) | set(mined_sizes(lo, hi, mined_limit, tag)))
+
+
+def product_pairs(total_lo, total_hi, count, a_range, b_range, tag=""):
+    """Pairs (a, b) whose product a*b is spread over [total_lo, total_hi] like ladder(); a in a_range, b in b_range.
+    For windows defined on a product of two dimensions (periods x samples, targets x frequencies, rows x columns);
+    mined integers c in the range are also aimed at (a*b just above c)."""
+    totals = list(ladder(total_lo, total_hi, count, tag + ":prod"))
+    for c in mined_ints(total_lo, total_hi):
+        totals.append(int(c * 1.07) + 3)
+    out = []
+    for i, t in enumerate(sorted(set(totals))):
+        # split t into a*b with a log-uniform in its admissible range
+        a_lo = max(a_range[0], -(-t // b_range[1]))
+        a_hi = min(a_range[1], max(1, t // max(1, b_range[0])))
+        if a_hi < a_lo:
+            continue
+        u = (_h(run_seed(), tag, "split", i) % 10 ** 6) / 1e6
+        a = int(math.exp(math.log(a_lo) + (math.log(a_hi + 1) - math.log(a_lo)) * u))
+        a = min(a_hi, max(a_lo, a))
+        b = min(b_range[1], max(b_range[0], -(-t // a)))
+        out.append((a, b))
+    return out
